@@ -264,6 +264,13 @@ def gate_backend(name, occ=0):
     return setup
 
 
+def slow_backend(delay, only=None):
+    def setup(spy, loop):
+        spy.delay_fn = lambda name, shown: delay if (only is None or name in only) else 0.0
+
+    return setup
+
+
 def gate_listener(net, loop):
     net.start_gates.append(simnet.Gate(loop))
     net.used_gates = list(net.start_gates)
@@ -294,6 +301,11 @@ def corpus(thorough=False):
         Scenario("pool", s_pasv_twice, tree=TREE_BIG, server_kwargs={"data_ports": [41001, 41002]}),
         Scenario("pool-two-sessions", s_two_sessions, tree=TREE_BIG, server_kwargs={"block_size": 64, "data_ports": [41001, 41002, 41003]}),
         Scenario("idle", s_idle, server_kwargs={"idle_timeout": 3}),
+        # a backend whose calls take (virtual) time - above all close(), which a cancelled worker still awaits on its
+        # way out: server.close() comes back only when that is over
+        Scenario("stor@slow-backend", s_stor, server_kwargs=small_blocks, spy_setup=slow_backend(0.25)),
+        Scenario("retr@slow-backend", s_retr, tree=TREE_BIG, server_kwargs=small_blocks, spy_setup=slow_backend(0.25)),
+        Scenario("two-sessions@slow-close", s_two_sessions, tree=TREE_BIG, server_kwargs=small_blocks, spy_setup=slow_backend(0.5, only=("close",))),
         # backend calls held open (cuts land inside the awaited backend call)
         Scenario("retr@open-gated", s_retr, tree=TREE_BIG, server_kwargs=small_blocks, spy_setup=gate_backend("open")),
         Scenario("retr@read-gated", s_retr, tree=TREE_BIG, server_kwargs=small_blocks, spy_setup=gate_backend("read", 2)),
